@@ -14,6 +14,16 @@ pub fn parse_pipeline(def: &ast::PipelineDefinition, context: &mut Context) -> T
         graphics_pipeline_state: None,
     };
 
+    // Pipelines are selected by name so each name can only be defined once
+    if context
+        .module
+        .pipelines
+        .iter()
+        .any(|existing| existing.name.node == def.name.node)
+    {
+        return Err(TyperError::PipelineAlreadyDefined(def.name.location));
+    }
+
     // Check for duplicate properties
     for i in 1..def.properties.len() {
         let new_property = &def.properties[i];
